@@ -26,7 +26,7 @@ ASSUMPTIONS = [
     "ignore_feedback=True exempts the caller-requested case; latch/unlatch use it by design",
 ]
 SANITY = ["writes_with_injected_fault", "writes_to_nonconforming_unit", "writes_returning_normally"]
-BOUNDS = {"quick": "1 fault at every answering step (a fault always ends the write, so higher fault bounds add no executions); 4 data patterns; short-write lengths {0,1,n-1,n,n+1}",
+BOUNDS = {"quick": "exactly 1 fault per run, at every answering step; 4 data patterns; short-write lengths {0,1,n-1,n,n+1}",
           "thorough": "same fault placement for all 6 data patterns; every short-write length 0..n+1"}
 
 DOC_EXC = ("MemoryLocationNotWriteable", "MemoryWriteFailure", "ResponseError", "MemoryValueNotWriteable", "ValueError")
@@ -78,7 +78,13 @@ class WHarness:
         fr = self.bus.execute(cmd)
         name = type(cmd).__name__
         if cmd.response is not None and self.chooser is not None and name in ("WriteMemoryLocation", "QueryContentDTR0"):
-            k = self.chooser.choose(4, f"fault@{self.step}:{name}", costs=[0, 1, 1, 1])
+            nalt = 5 if name == "WriteMemoryLocation" else 4
+            k = self.chooser.choose(nalt, f"fault@{self.step}:{name}", costs=[0] + [1] * (nalt - 1))
+            if k == 4:
+                # unit-side fault: the write was executed but DTR0 was not advanced this once
+                if self.unit.dtr0 > 0:
+                    self.unit.dtr0 -= 1
+                self.injected.append((self.step, name, "dtr0-not-advanced"))
             if k == 1:
                 fr = None
                 self.injected.append((self.step, name, "silence"))
@@ -237,7 +243,7 @@ def run_shard(shard):
                     res["distinct"].add((name, r))
         sample(res, {"non_writable": name})
         return res
-    bound = (2 if w <= 2 else 1) if (tier == "quick" or w > 8) else (3 if w <= 2 else 2)
+    bound = 1       # exactly one fault per run (statement): two faults can cancel each other (DTR0 one short + answer one high)
     pats = patterns(w, tier)
     for fam in ("gear", "device"):
         for lock in (0xFF, 0x55, 0x00, 0xAA):
